@@ -1088,12 +1088,23 @@ func (kcp *KCP) Check() uint32 {
 
 // SetMtu changes MTU size, default is 1400
 func (kcp *KCP) SetMtu(mtu int) int {
-	if mtu <= IKCP_OVERHEAD {
+	if mtu <= IKCP_OVERHEAD || mtu > 65535 { // no UDP datagram is larger; also keeps the arithmetic below in range
 		return -1
 	}
 
+	// segments already cut for a larger MTU cannot be re-cut (fragment numbers
+	// are assigned): an MTU they do not fit cannot be honoured, refuse it.
+	mss := min(mtu-IKCP_OVERHEAD, mtuLimit) // segment payloads live in mtuLimit-sized pool buffers
+	for _, q := range []*RingBuffer[segment]{kcp.snd_queue, kcp.snd_buf} {
+		for seg := range q.ForEach {
+			if len(seg.data) > mss {
+				return -1
+			}
+		}
+	}
+
 	kcp.mtu = uint32(mtu)
-	kcp.mss = kcp.mtu - IKCP_OVERHEAD
+	kcp.mss = uint32(mss)
 	kcp.buffer = make([]byte, (mtu+IKCP_OVERHEAD)*3)
 	return 0
 }
